@@ -154,6 +154,9 @@ type runResult struct {
 	Dur      time.Duration
 	Alloc    uint64
 	TimedOut bool
+	// AllocStopped: the call was abandoned while still running because it had exceeded the
+	// allocation budget.
+	AllocStopped bool
 }
 
 // panicSite returns the innermost frame inside the repository from the program counters of a
@@ -313,16 +316,39 @@ func extractInTree(ext *extInfo, root, treePath string, timeout time.Duration) (
 		r.Err = err
 	}()
 	var r runResult
-	select {
-	case r = <-done:
-	case <-time.After(timeout):
-		r.TimedOut = true
+	deadline := time.NewTimer(timeout)
+	defer deadline.Stop()
+	tick := time.NewTicker(150 * time.Millisecond)
+	defer tick.Stop()
+wait:
+	for {
+		select {
+		case r = <-done:
+			break wait
+		case <-deadline.C:
+			r.TimedOut = true
+			break wait
+		case <-tick.C:
+			// allocation watchdog: an input that is already over the allocation budget is
+			// reported without waiting for Extract to return (it may run for minutes)
+			if allocStop > 0 {
+				runtime.ReadMemStats(&m1)
+				if m1.TotalAlloc-m0.TotalAlloc > allocStop {
+					r.AllocStopped = true
+					break wait
+				}
+			}
+		}
 	}
 	r.Dur = time.Since(start)
 	runtime.ReadMemStats(&m1)
 	r.Alloc = m1.TotalAlloc - m0.TotalAlloc
 	return r, nil
 }
+
+// allocStop, when non-zero, makes extractInTree give up on a call once it has allocated that
+// many bytes (set in the child processes that execute C02 cases; the process is then discarded).
+var allocStop uint64
 
 // ---------------------------------------------------------------------------------------
 // Containment scans.
